@@ -639,21 +639,22 @@ impl {node_enum_name} {{
         let nonterminal_kind_enum_name = &self.nonterminal_kind_enum_name;
         let parent_type_name = constructor_name.type_name();
         let constructor_name = constructor_name.to_string();
+        let child_var_names = self.get_named_fieldset_child_var_names(fields);
         let child_vars: String = fields
             .iter()
             .enumerate()
             .rev()
             .map(|(field_index, field)| match (&field.name, &field.symbol) {
                 (IdentOrUnderscore::Underscore(_), _) => "nodes.pop().unwrap();\n".to_owned(),
-                (IdentOrUnderscore::Ident(field_name), IdentOrTerminalIdent::Ident(field_type)) => {
-                    let field_name = &field_name.name;
+                (IdentOrUnderscore::Ident(_), IdentOrTerminalIdent::Ident(field_type)) => {
+                    let child_var_name = &child_var_names[field_index];
                     let field_type_name = &field_type.name;
-                    format!("let {field_name}_{field_index} = Box::new({field_type_name}::try_from(nodes.pop().unwrap()).ok().unwrap());\n")
+                    format!("let {child_var_name} = Box::new({field_type_name}::try_from(nodes.pop().unwrap()).ok().unwrap());\n")
                 },
-                (IdentOrUnderscore::Ident(field_name), IdentOrTerminalIdent::Terminal(field_type)) => {
-                    let field_name = &field_name.name;
+                (IdentOrUnderscore::Ident(_), IdentOrTerminalIdent::Terminal(field_type)) => {
+                    let child_var_name = &child_var_names[field_index];
                     let try_into_method_name = self.node_to_terminal_method_names.get(&field_type.name).unwrap();
-                    format!("let {field_name}_{field_index} = nodes.pop().unwrap().{try_into_method_name}().ok().unwrap();\n")
+                    format!("let {child_var_name} = nodes.pop().unwrap().{try_into_method_name}().ok().unwrap();\n")
                 }
             })
             .collect();
@@ -667,7 +668,8 @@ impl {node_enum_name} {{
                 IdentOrUnderscore::Underscore(_) => None,
                 IdentOrUnderscore::Ident(field_name) => {
                     let field_name = &field_name.name;
-                    Some(format!("{field_name}: {field_name}_{field_index},"))
+                    let child_var_name = &child_var_names[field_index];
+                    Some(format!("{field_name}: {child_var_name},"))
                 }
             })
             .collect::<Vec<_>>()
@@ -692,6 +694,29 @@ states.truncate(states.len() - {num_fields});
     {nonterminal_kind_enum_name}::{parent_type_name},
 )"#
         )
+    }
+
+    /// Returns the name of the local variable that holds each field's child
+    /// (indexed by field position; the entries of `_` fields are unused).
+    ///
+    /// The preferred name is `{field_name}_{field_index}`.
+    /// A field name without letters (e.g., `__`) can make that
+    /// equal to the name of a user-defined type (e.g., `struct ___0`),
+    /// and a `let` binding cannot be named like a unit or tuple struct.
+    /// So, the names are made unique against the user's identifiers.
+    fn get_named_fieldset_child_var_names(&self, fields: &[NamedField]) -> Vec<String> {
+        let used_identifiers = &mut self.file.get_defined_identifiers();
+        fields
+            .iter()
+            .enumerate()
+            .map(|(field_index, field)| match &field.name {
+                IdentOrUnderscore::Underscore(_) => "_".to_owned(),
+                IdentOrUnderscore::Ident(field_name) => {
+                    let field_name = &field_name.name;
+                    create_unique_identifier(&format!("{field_name}_{field_index}"), used_identifiers)
+                }
+            })
+            .collect()
     }
 
     fn get_tuple_fieldset_rule_reduction_src(
